@@ -645,6 +645,14 @@ pub fn run_io_scenario(sc: &IoScenario, what: &str, rng: &mut Rng, max_points: u
         points.push((k, "before"));
     }
     points.push((n_events.saturating_sub(1) as u64, "after"));
+    // replay of one recorded point: VERIF_IO_ONLY=<k>:<before|after>[:<fail|failp>]
+    let only: Option<(u64, String, Option<String>)> = std::env::var("VERIF_IO_ONLY").ok().and_then(|v| {
+        let t: Vec<&str> = v.split(':').collect();
+        Some((t.first()?.parse().ok()?, t.get(1)?.to_string(), t.get(2).map(|x| x.to_string())))
+    });
+    if let Some((k, when, _)) = &only {
+        points = vec![(*k, if when == "after" { "after" } else { "before" })];
+    }
     if points.len() > max_points {
         // always keep the neighbourhood of the switch-over, sample the rest
         let mut keep: Vec<(u64, &str)> = Vec::new();
@@ -733,6 +741,11 @@ pub fn run_io_scenario(sc: &IoScenario, what: &str, rng: &mut Rng, max_points: u
         } else {
             // fail-at-k, once or persistently
             let mode = if when == "after" || rng.chance(1, 2) { "failp" } else { "fail" };
+            let mode = match &only {
+                Some((_, _, Some(m))) if m == "fail" => "fail",
+                Some((_, _, Some(m))) if m == "failp" => "failp",
+                _ => mode,
+            };
             let ev = rec.events.iter().find(|e| e.armed == Some(k)).cloned();
             // only operations that can fail
             if let Some(e) = &ev {
@@ -801,7 +814,59 @@ pub fn run_io_scenario(sc: &IoScenario, what: &str, rng: &mut Rng, max_points: u
     out
 }
 
+/// re-run one recorded crash / fault point from a replay file written by this engine
+fn replay_io(file: &str) -> i32 {
+    let txt = std::fs::read_to_string(file).expect("replay file");
+    let what = if txt.contains("# E-io scenario (crash)") { "crash" } else { "fail" };
+    let mut only = String::new();
+    for l in txt.lines() {
+        if let Some(r) = l.strip_prefix("# crash point: event ") {
+            // "<k> (before)"
+            let k = r.split(' ').next().unwrap_or("0");
+            let when = if r.contains("(after)") { "after" } else { "before" };
+            only = format!("{}:{}", k, when);
+        } else if let Some(r) = l.strip_prefix("# fault: event ") {
+            let k = r.split(' ').next().unwrap_or("0");
+            let mode = if r.contains("(failp)") { "failp" } else { "fail" };
+            only = format!("{}:before:{}", k, mode);
+        }
+    }
+    if only.is_empty() {
+        println!("no crash / fault point recorded in {}", file);
+        return 2;
+    }
+    let mut sect = 0;
+    let (mut prefix, mut child, mut cont) = (Vec::new(), Vec::new(), Vec::new());
+    for l in txt.lines() {
+        if l.starts_with("# --- prefix") { sect = 1; continue; }
+        if l.starts_with("# --- child") { sect = 2; continue; }
+        if l.starts_with("# --- continuation") { sect = 3; continue; }
+        if l.starts_with('#') || l.trim().is_empty() { continue; }
+        match sect {
+            1 => prefix.push(Op::parse(l)),
+            2 => child.push(Op::parse(l)),
+            3 => cont.push(Op::parse(l)),
+            _ => {}
+        }
+    }
+    let cfg = match child.first() { Some(Op::Open(c)) => c.clone(), _ => { println!("malformed replay file"); return 2; } };
+    let arm = child.iter().position(|o| *o == Op::Arm).unwrap_or(1);
+    let disarm = child.iter().position(|o| *o == Op::Disarm).unwrap_or(child.len());
+    let sc = IoScenario { cfg, prefix, prep: child[1..arm].to_vec(), target: child[arm + 1..disarm].to_vec(), cont, label: "replay".into() };
+    std::env::set_var("VERIF_IO_ONLY", &only);
+    let mut rng = Rng::new(1);
+    let o = run_io_scenario(&sc, what, &mut rng, 1, "replay");
+    println!("replayed {} point {}: {} trial(s), {} violation(s)", what, only, o.trials, o.violations.len());
+    for (sig, detail, _) in &o.violations {
+        println!("violation {}: {}", sig, detail);
+    }
+    if o.violations.is_empty() { 0 } else { 1 }
+}
+
 pub fn cmd_io(kv: &HashMap<String, String>) -> i32 {
+    if let Some(f) = kv.get("replay") {
+        return replay_io(f);
+    }
     let prop = kv.get("prop").cloned().expect("--prop");
     let thorough = kv.get("tier").map(|t| t == "thorough").unwrap_or(false);
     let seed: u64 = kv.get("seed").and_then(|s| s.parse().ok()).unwrap_or(1);
@@ -811,7 +876,7 @@ pub fn cmd_io(kv: &HashMap<String, String>) -> i32 {
     let replay_dir = kv.get("replays").cloned().unwrap_or_else(|| format!("/verif/replays/{}", prop));
     let threads: usize = kv.get("threads").and_then(|s| s.parse().ok()).unwrap_or(12);
     let what = kv.get("what").cloned().unwrap_or_else(|| if prop == "C14" { "fail".into() } else { "crash".into() });
-    let _ = std::fs::remove_dir_all(&replay_dir);
+    // stale replays are removed by tools/check before the engines of a run start
     std::fs::create_dir_all(&replay_dir).ok();
     let t0 = std::time::Instant::now();
     let mut rng = Rng::new(seed);
